@@ -131,6 +131,29 @@ def shape_of(level, a):
     return 'sparse%d' % nz
 
 
+def near_unitary_fq12(rng, m=None, kind=None):
+    """Fq12 elements whose relative norm to Fq6, N = c0^2 - v*c1^2, is 1 (unitary), -1, or 1 + t*v^m for a single Fq2 coefficient t (in Fq, purely
+    imaginary, or general): the values an inversion by norms passes through, perturbed in one coordinate.  All twelve coordinates of the element
+    itself are random-looking (c1 is random, c0 a square root in Fq6); a random element has such a norm with probability q^-5 or less."""
+    z2, one2 = (0, 0), (1, 0)
+    m = rng.randrange(3) if m is None else m
+    kind = kind or rng.choice(['unitary', 'minus-one', 't-in-Fq', 't-imaginary', 't-general'])
+    for _ in range(40):
+        k = rng.choice([1, Q - 1, 2, rng.randrange(1, Q)])
+        t = {'unitary': z2, 'minus-one': (Q - 2, 0), 't-in-Fq': (k, 0), 't-imaginary': (0, k), 't-general': (k, rng.randrange(1, Q))}[kind]
+        want = [one2, z2, z2]
+        want[0 if kind == 'minus-one' else m] = O.f2_add(want[0 if kind == 'minus-one' else m], t)
+        want = tuple(want)
+        c1 = tuple((rng.randrange(Q), rng.randrange(Q)) for _ in range(3))
+        c0 = O.f6_sqrt(O.f6_add(want, O.f6_mul_by_v(O.f6_mul(c1, c1))))
+        if c0 is None:
+            continue
+        a = (c0, c1)
+        assert O.f6_sub(O.f6_mul(c0, c0), O.f6_mul_by_v(O.f6_mul(c1, c1))) == want
+        return a, 'relative-norm=%s' % (kind if kind in ('unitary', 'minus-one') else '1+%s*v^%d' % (kind, m))
+    raise AssertionError('no near-unitary element found')
+
+
 class Gen:
     def __init__(self):
         self.lines = []
@@ -254,6 +277,15 @@ def gen_directed(g, rng, cyc_pool, heavy):
         for (c0, c1) in ((z2, r()), (r(), z2), (z2, z2)):
             g.add('Fq6.mulc01 %s %s %s' % (C.enc_fq6(a6), C.enc_fq2(c0), C.enc_fq2(c1)), 'Fq6', 'mulc01', a6, c0, c1)
         g.add('Fq6.mulc1 %s %s' % (C.enc_fq6(a6), C.enc_fq2(z2)), 'Fq6', 'mulc1', a6, z2)
+    # elements with a (nearly) trivial relative norm: inversion, squaring, the cyclotomic map and products with the conjugate
+    combos = [(m, kind) for kind in ('unitary', 't-in-Fq', 't-imaginary', 't-general') for m in range(3)] + [(0, 'minus-one')]
+    for i in range(max(len(combos), heavy * 3)):
+        a, tag = near_unitary_fq12(rng, *combos[i % len(combos)])
+        g.add('Fq12.inv %s' % C.enc_fq12(a), 'Fq12', 'inv', a)
+        g.add('Fq12.sqr %s' % C.enc_fq12(a), 'Fq12', 'sqr', a)
+        g.add('Fq12.mul %s %s' % (C.enc_fq12(a), C.enc_fq12(O.f12_conj(a))), 'Fq12', 'mul', a, O.f12_conj(a))
+        if i % 3 == 0:
+            g.add('Fq12.mapcyc %s' % C.enc_fq12(a), 'Fq12', 'mapcyc', a)
     # map_to_cyclotomic against the generic power (expensive: sample)
     for _ in range(heavy):
         a, _ = rand_elem('Fq12', rng, rng.choice(['rand', 'mixed', 'special']))
